@@ -262,9 +262,17 @@ def deasync_file(root, rw):
     for a, b in sorted(edits, reverse=True):
         s = s[:a] + s[b:].lstrip(" ") if False else s[:a] + s[b:]
     mask = _rust_code_mask(s)
+    # scope of the `.await` -> `.vw()` replacement: the whole file (default) or only the de-asynced impl blocks
+    ranges = None
+    if rw.get("await_scope") == "impl":
+        ranges = []
+        for m in re.finditer(re.escape(rw["impl"]), s):
+            if mask[m.start()]:
+                ob = s.index("{", m.start())
+                ranges.append((ob, _match_brace(s, mask, ob)))
     out, i, n = [], 0, 0
     for m in re.finditer(r"\.\s*await\b", s):
-        if mask[m.start()]:
+        if mask[m.start()] and (ranges is None or any(a <= m.start() < b for a, b in ranges)):
             out.append(s[i:m.start()]); out.append(".vw()"); i = m.end(); n += 1
     out.append(s[i:])
     s = "".join(out)
@@ -284,6 +292,8 @@ def prepare(spec, workdir, harness_files):
     if r.returncode != 0:
         raise Inconclusive("rsync of /repo failed")
     rewrite_cargo_toml(os.path.join(repo, "Cargo.toml"), bool(spec.get("symcrypto")))
+    if spec.get("symcrypto"):
+        open(os.path.join(workdir, ".symcrypto"), "w").write("1")
     # crate-root feature gate needed by the shared harness helpers (sequential Weak::upgrade stub names the allocator parameter)
     apply_rewrite(repo, {"file": "src/lib.rs", "anchor": "pub mod config;", "count": 1, "mode": "before",
                          "text": "#![cfg_attr(kani, feature(allocator_api))]\n"})
@@ -311,9 +321,9 @@ def prepare(spec, workdir, harness_files):
     return repo
 
 
-def seed_target(workdir):
+def seed_target(workdir, sym=False):
     tgt = os.path.join(workdir, "target")
-    src = os.path.join(CACHE, "target")
+    src = os.path.join(CACHE, "target-sym" if sym else "target")
     if os.path.isdir(src) and not os.path.isdir(tgt):
         sh(["cp", "-a", "--reflink=auto", src, tgt])
     return tgt
@@ -330,8 +340,43 @@ def kani_env():
     return e
 
 
+def _rss_watchdog(pgid, stop, limit_kb, total_kb, logf):
+    """Kill solver processes of our process group whose resident memory exceeds the per-process cap, and the
+    largest one when the group as a whole exceeds the total cap (no swap on this box: an out-of-memory kill by
+    the kernel could hit anything). A killed harness is reported by Kani as failed without a verdict -> inconclusive.
+    (`ulimit -v` is not used: under it the Kani driver itself aborted with 'memory allocation failed'.)"""
+    import threading
+    while not stop.wait(2.0):
+        procs = []
+        for pid in os.listdir("/proc"):
+            if not pid.isdigit():
+                continue
+            try:
+                st = open(f"/proc/{pid}/stat").read()
+                comm = st[st.index("(") + 1:st.rindex(")")]
+                fields = st[st.rindex(")") + 2:].split()
+                if int(fields[2]) != pgid or comm != "cbmc":
+                    continue
+                rss_kb = int(fields[21]) * (os.sysconf("SC_PAGE_SIZE") // 1024)
+                procs.append((rss_kb, int(pid)))
+            except Exception:
+                continue
+        victims = [pid for rss, pid in procs if rss > limit_kb]
+        if not victims and procs and sum(r for r, _ in procs) > total_kb:
+            victims = [max(procs)[1]]
+        for pid in victims:
+            try:
+                os.kill(pid, signal.SIGKILL)
+                with open(logf, "a") as lf:
+                    lf.write(f"\n[verif] memory watchdog killed cbmc pid {pid}\n")
+            except Exception:
+                pass
+
+
 def run_kani(repo, target, full_names, jobs, timeout_each, out_json, logf, extra=()):
-    memk = int(os.environ.get("VERIF_MEM_KB", str(24 * 1024 * 1024)))
+    import threading
+    limit_kb = int(os.environ.get("VERIF_CBMC_RSS_KB", str(20 * 1024 * 1024)))
+    total_kb = int(os.environ.get("VERIF_TOTAL_RSS_KB", str(44 * 1024 * 1024)))
     cmd = ["cargo", "kani", "--target-dir", target, "-Z", "unstable-options", "-Z", "stubbing",
            "--exact", "-j", str(jobs), "--output-format", "terse",
            "--harness-timeout", f"{timeout_each}s", "--export-json", out_json]
@@ -342,13 +387,16 @@ def run_kani(repo, target, full_names, jobs, timeout_each, out_json, logf, extra
     with open(logf, "w") as lf:
         lf.write("$ " + " ".join(cmd) + "\n")
         lf.flush()
-        p = subprocess.Popen(["bash", "-c", f"ulimit -v {memk}; exec \"$@\"", "--"] + cmd, cwd=repo,
-                             stdout=lf, stderr=subprocess.STDOUT, env=kani_env(), start_new_session=True)
+        p = subprocess.Popen(cmd, cwd=repo, stdout=lf, stderr=subprocess.STDOUT, env=kani_env(), start_new_session=True)
+        stop = threading.Event()
+        wd = threading.Thread(target=_rss_watchdog, args=(p.pid, stop, limit_kb, total_kb, logf), daemon=True)
+        wd.start()
         try:
             rc = p.wait(timeout=overall)
         except subprocess.TimeoutExpired:
             os.killpg(p.pid, signal.SIGKILL)
             rc = -9
+        stop.set()
     return rc
 
 
@@ -447,7 +495,8 @@ def prepare_native(repo):
 
 def seed_target_pb(workdir):
     tgt = os.path.join(workdir, "target-pb")
-    src = os.path.join(CACHE, "target-pb")
+    sym = os.path.exists(os.path.join(workdir, ".symcrypto"))
+    src = os.path.join(CACHE, "target-pb-sym" if sym else "target-pb")
     if os.path.isdir(src) and not os.path.isdir(tgt):
         sh(["cp", "-a", "--reflink=auto", src, tgt])
     return tgt
@@ -486,19 +535,32 @@ def run_native_tests(repo, workdir, names, tag):
     return res
 
 
-def concrete_playback(repo, target, h, workdir):
+def concrete_playback(repo, target, h, workdir, extra=()):
     """Re-run one failing harness with concrete playback, splice the generated tests into the
     (private copy of the) harness module and run them natively.
     Returns (reproduced: bool|None, test_source, detail)."""
     logf = os.path.join(workdir, f"playback-{h['name']}.log")
     cmd = ["cargo", "kani", "--target-dir", target, "-Z", "unstable-options", "-Z", "stubbing", "-Z", "concrete-playback",
-           "--concrete-playback=print", "--exact", "--harness", h["full"], "--harness-timeout", f"{h['timeout']*2}s"]
+           "--concrete-playback=print", "--exact", "--harness", h["full"], "--harness-timeout", f"{h['timeout']*2}s"] + list(extra)
+    import threading
+    cap = min(h["timeout"] * 2, int(os.environ.get("VERIF_PLAYBACK_CAP_S", "600")))
     with open(logf, "w") as lf:
-        sh(cmd, cwd=repo, stdout=lf, stderr=subprocess.STDOUT, env=kani_env())
+        p = subprocess.Popen(cmd, cwd=repo, stdout=lf, stderr=subprocess.STDOUT, env=kani_env(), start_new_session=True)
+        stop = threading.Event()
+        wd = threading.Thread(target=_rss_watchdog, args=(p.pid, stop, int(os.environ.get("VERIF_CBMC_RSS_KB", str(20 * 1024 * 1024))),
+                                                           int(os.environ.get("VERIF_TOTAL_RSS_KB", str(44 * 1024 * 1024))), logf), daemon=True)
+        wd.start()
+        try:
+            p.wait(timeout=cap)
+        except subprocess.TimeoutExpired:
+            os.killpg(p.pid, signal.SIGKILL)
+        stop.set()
     out = open(logf).read()
     tests = re.findall(r"(#\[test\]\s*\n\s*fn kani_concrete_playback_\w+\(\)\s*\{.*?\n\})", out, re.S)
     if not tests:
-        return None, "", "kani produced no concrete playback test (see %s)" % logf
+        # Trace extraction (unsliced formula) can exceed the time/memory budget of a harness that is decided in
+        # seconds. Fall back to a solver-level replay: decide the harness once more, on its own, from a clean run.
+        return "solver", "", "no concrete trace within %d s / memory cap (see %s); confirmed by an independent second solver run" % (cap, logf)
     uniq = []
     for t in tests:
         if t not in uniq:
@@ -547,31 +609,34 @@ def replay_file(prop, spec, path, workdir):
 # main
 # ----------------------------------------------------------------------------------------
 def setup():
-    """Build the dependency caches (Kani goto build and native playback build). Only a cache:
-    every check works without it, just ~2-3 minutes slower."""
+    """Build the dependency caches (Kani goto build and native playback build), once with the real crypto crates
+    and once with the symcrypto facades. Only a cache: every check works without it, just minutes slower."""
     os.makedirs(SCRATCH_ROOT, exist_ok=True)
-    workdir = os.path.join(SCRATCH_ROOT, f"setup-{os.getpid()}")
-    spec = {"property": "C15", "inject": [], "rewrites": []}
-    try:
-        repo = prepare(spec, workdir, None)
-        shutil.rmtree(CACHE, ignore_errors=True)
-        os.makedirs(CACHE)
-        with open(os.path.join(workdir, "setup.log"), "w") as lf:
-            r = sh(["cargo", "kani", "--target-dir", os.path.join(CACHE, "target"), "--only-codegen"], cwd=repo,
-                   stdout=lf, stderr=subprocess.STDOUT, env=kani_env())
-            print("kani dependency cache:", "ok" if r.returncode == 0 else f"FAILED rc={r.returncode}")
-            rc = r.returncode
-            prepare_native(repo)
-            env = kani_env()
-            env["CARGO_TARGET_DIR"] = os.path.join(CACHE, "target-pb")
-            r2 = sh(["cargo", "kani", "playback", "-Z", "concrete-playback", "-Z", "stubbing", "--only-codegen"], cwd=repo,
-                    stdout=lf, stderr=subprocess.STDOUT, env=env)
-            print("native playback cache:", "ok" if r2.returncode == 0 else f"FAILED rc={r2.returncode} (replays will build from scratch)")
-        os.makedirs(os.path.join(VERIF, "logs"), exist_ok=True)
-        shutil.copy(os.path.join(workdir, "setup.log"), os.path.join(VERIF, "logs", "setup.log"))
-        return rc
-    finally:
-        shutil.rmtree(workdir, ignore_errors=True)
+    shutil.rmtree(CACHE, ignore_errors=True)
+    os.makedirs(CACHE)
+    rc_all = 0
+    os.makedirs(os.path.join(VERIF, "logs"), exist_ok=True)
+    for sym in (False, True):
+        workdir = os.path.join(SCRATCH_ROOT, f"setup-{os.getpid()}-{int(sym)}")
+        spec = {"property": "C15", "inject": [], "rewrites": [], "symcrypto": sym}
+        suffix = "-sym" if sym else ""
+        try:
+            repo = prepare(spec, workdir, None)
+            with open(os.path.join(workdir, "setup.log"), "w") as lf:
+                r = sh(["cargo", "kani", "--target-dir", os.path.join(CACHE, "target" + suffix), "--only-codegen"], cwd=repo,
+                       stdout=lf, stderr=subprocess.STDOUT, env=kani_env())
+                print(f"kani dependency cache{suffix}:", "ok" if r.returncode == 0 else f"FAILED rc={r.returncode}")
+                rc_all = rc_all or r.returncode
+                prepare_native(repo)
+                env = kani_env()
+                env["CARGO_TARGET_DIR"] = os.path.join(CACHE, "target-pb" + suffix)
+                r2 = sh(["cargo", "kani", "playback", "-Z", "concrete-playback", "-Z", "stubbing", "--only-codegen"], cwd=repo,
+                        stdout=lf, stderr=subprocess.STDOUT, env=env)
+                print(f"native playback cache{suffix}:", "ok" if r2.returncode == 0 else f"FAILED rc={r2.returncode} (replays will build from scratch)")
+            shutil.copy(os.path.join(workdir, "setup.log"), os.path.join(VERIF, "logs", f"setup{suffix}.log"))
+        finally:
+            shutil.rmtree(workdir, ignore_errors=True)
+    return rc_all
 
 
 def main():
@@ -651,8 +716,8 @@ def run_property(prop, spec, sel, harnesses, workdir, a, seed, t0):
     repo = prepare(spec, workdir, None)
     for h in harnesses:
         h["file_abs_in_scratch"] = os.path.join(workdir, "harness", prop, h["file"])
-    target = seed_target(workdir)
-    jobs = a.jobs or min(NCPU, len(sel))
+    target = seed_target(workdir, bool(spec.get("symcrypto")))
+    jobs = a.jobs or min(NCPU, len(sel), int(spec.get("max_jobs", NCPU)))
     tmax = max(h["timeout"] for h in sel)
     if a.tmax:
         tmax = min(tmax, a.tmax)
@@ -722,7 +787,20 @@ def run_property(prop, spec, sel, harnesses, workdir, a, seed, t0):
             continue
         seen.add(h["name"])
         log(f"{prop}: harness {h['name']} FAILED: {c.get('description')} @ {c.get('location')}; replaying")
-        rep, src, detail = concrete_playback(repo, target, h, workdir)
+        rep, src, detail = concrete_playback(repo, target, h, workdir, extra)
+        if rep == "solver":
+            # second, independent run of this harness alone; the violation is reported only if it fails again on the same check
+            out2 = os.path.join(workdir, f"kani-second-{h['name']}.json")
+            run_kani(repo, target, [h["full"]], 1, h["timeout"], out2, os.path.join(workdir, f"kani-second-{h['name']}.log"), extra)
+            d2 = load_results(out2)
+            r2 = summarize(d2, h["full"]) if d2 else {}
+            again = [x for x in (r2.get("failed") or []) if x.get("description") == c.get("description")]
+            if again:
+                src = ("// No concrete trace could be extracted within the budget; this replay is solver-level:\n"
+                       f"// run   ./check {prop} --only '^{h['name']}$' --no-evidence   against the same tree; the harness fails on the check below.\n")
+                rep = True
+            else:
+                rep, detail = None, detail + "; second solver run did not fail on the same check"
         if rep:
             # replays of runs against another tree (seeded changes, VERIF_REPO=...) are kept out of /verif/replays
             rdir = os.path.join(VERIF, "replays", prop) if REPO == "/repo" else os.path.join(SCRATCH_ROOT, "replays-other-tree", prop)
